@@ -72,7 +72,9 @@ def checks_for(path):
 
 files = subprocess.check_output(
     "git -C /repo ls-files 'insim/src/**.rs' 'insim_core/src/**.rs' 'insim_pth/src/*.rs' 'insim_smx/src/*.rs'", shell=True, text=True).split()
-files = [f for f in files if not f.endswith("track.rs")]  # a generated 1300-line table: sampled separately below
+files = [f for f in files if not f.endswith("track.rs")]  # a generated 1300-line table
+if os.environ.get("AUTOMUT_FILES"):
+    files = [f for f in files if re.search(os.environ["AUTOMUT_FILES"], f)]
 
 OPS = [
     (r"<=", "<"), (r">=", ">"), (r"(?<![<>=!-])<(?![<=])", "<="), (r"(?<![<>=!-])>(?![>=])", ">="),
